@@ -4,3 +4,6 @@ import os, sys
 sys.path.insert(0, os.path.dirname(os.path.abspath(__file__)))
 from translate import frontend_ir
 print(frontend_ir.generate(which=("server", "client")))
+from translate import mutation_sites
+import common
+print("mutation sites:", len(mutation_sites.generate(common.REPO, os.path.join(common.LEAN, "SSEPyVerif", "Generated", "MutationSites.lean"))))
